@@ -14,13 +14,14 @@ Local Open Scope ring_scope.
 
 Section Example.
   Variable F : rcfType.
+  Variable mix : F.          (* the mixing parameter of the example *)
 
   Definition pm1 (i : nat) : F := if i == 0%N then 1 else -1.
   Definition r2 : F := Num.sqrt 2.
 
   Definition ex_entry (r : nat) (v : nat) (i : nat) : F :=
     if v == vX then pm1 i else if v == vY then pm1 i else if v == vYh then pm1 i
-    else if v == vW then 1 else if v == va then 2^-1 else if v == vtol then 0
+    else if v == vW then 1 else if v == va then mix else if v == vtol then 0
     else if v == vUC then 1 else if v == vvC then 2
     else if v == vV then (if r == 2%N then r2^-1 * pm1 i else 1)
     else if v == vS then 2 else if v == vCsq then r2 else 0.
@@ -80,9 +81,9 @@ Section Example.
     - split; crunch; field; exact: r2_neq0.
     - split; crunch; first by field.
       have -> : forall t : F, t != 0 ->
-          ((1 - 2^-1) * ((((1 / t + 0) * 1 + 0) * (1 * 1 + (-1 * -1 + 0)) + 0) *
+          ((1 - mix) * ((((1 / t + 0) * 1 + 0) * (1 * 1 + (-1 * -1 + 0)) + 0) *
              (((1 / t + 0) * 1 + 0) * (1 * 1 + (-1 * -1 + 0)) + 0) + 0) +
-           2^-1 * (1 * 1 + (-1 * -1 + 0))) * 1 + 0 = 2 * (t^-1 * t^-1) + 1.
+           mix * (1 * 1 + (-1 * -1 + 0))) * 1 + 0 = (1 - mix) * (4 * (t^-1 * t^-1)) + mix * 2.
         by move=> t t0; field.
       - by rewrite r2i_sq; field.
       - exact: r2_neq0.
@@ -91,11 +92,8 @@ Section Example.
   Lemma ex_retained : forall i, e_tol ex_env < e_S 1 ex_env i 0.
   Proof. by move=> i; rewrite /e_tol /e_S !mxE /ex_entry /= ltr0n. Qed.
 
-  Lemma ex_mixing : 0 < e_a ex_env < 1.
-  Proof.
-    rewrite /e_a !mxE /ex_entry /= invr_gt0 ltr0n /=.
-    by rewrite invf_lt1 ?ltr0n // ltr1n.
-  Qed.
+  Lemma ex_mixing : e_a ex_env = mix.
+  Proof. by rewrite /e_a !mxE /ex_entry. Qed.
 
   Lemma ex_X_neq0 : e_X 2 1 ex_env != 0.
   Proof.
@@ -103,9 +101,85 @@ Section Example.
     by move/eqP; rewrite oner_eq0.
   Qed.
 
+  (* the rest of the spectrum of K~ (C03 route independence) *)
+  Definition ex_Uc : 'M[F]_(2, 1) := \matrix_(i, j) r2^-1.
+  Definition ex_Sc : 'cV[F]_1 := 0.
+
+  Lemma ex_rest :
+    [/\ eval_mx ex_env (kern_prog 2 1 1) *m ex_Uc = ex_Uc *m diag_mx ex_Sc^T,
+        e_Vs 2 1 ex_env *m (e_Vs 2 1 ex_env)^T + ex_Uc *m ex_Uc^T = 1%:M
+      & forall i j, ex_Sc i 0 != e_S 1 ex_env j 0].
+  Proof.
+    split; rewrite ?kern_formula /s_Kt /e_Vs /e_S /e_X /e_Yh /e_a /ex_Uc /ex_Sc.
+    - crunch; case: i => [[|[|i]] hi] //=; field; exact: r2_neq0.
+    - apply/matrixP=> i j; rewrite !(mxE, big_ord_recl, big_ord0) /ex_entry /= /pm1 /=.
+      have h : forall s : F, s * 1 * (s * 1) + 0 + (s * s + 0) = 2 * (s * s) by move=> s; ring.
+      have h' : forall s : F, s * 1 * (s * -1) + 0 + (s * s + 0) = 0 by move=> s; ring.
+      have h'' : forall s : F, s * -1 * (s * 1) + 0 + (s * s + 0) = 0 by move=> s; ring.
+      have h3 : forall s : F, s * -1 * (s * -1) + 0 + (s * s + 0) = 2 * (s * s) by move=> s; ring.
+      case: i => [[|[|i]] hi] //=; case: j => [[|[|j]] hj] //=;
+        by rewrite ?h ?h' ?h'' ?h3 ?r2i_sq ?mulfV ?two_neq0.
+    - by move=> i j; rewrite !mxE /ex_entry /= eq_sym two_neq0.
+  Qed.
+
+  (* the full decreasing eigen-decomposition of K~ (C04 optimality) *)
+  Definition ex_U : 'M[F]_2 := \matrix_(i, j) (r2^-1 * (if (j : nat) == 0%N then pm1 i else 1)).
+  Definition ex_L : 'cV[F]_2 := \col_i (if (i : nat) == 0%N then 2 else 0).
+
+  Lemma ex_full :
+    [/\ ex_U^T *m ex_U = 1%:M,
+        eval_mx ex_env (kern_prog 2 1 1) *m ex_U = ex_U *m diag_mx ex_L^T,
+        forall i j : 'I_2, (i <= j)%N -> ex_L j 0 <= ex_L i 0
+      & forall i : 'I_1, e_S 1 ex_env i 0 = ex_L (widen_ord (isT : (1 <= 2)%N) i) 0].
+  Proof.
+    split; rewrite ?kern_formula /s_Kt /e_S /e_X /e_Yh /e_a /ex_U /ex_L.
+    - apply/matrixP=> i j; rewrite !(mxE, big_ord_recl, big_ord0) /= /pm1 /=.
+      have h : forall s : F, s * 1 * (s * 1) + (s * -1 * (s * -1) + 0) = 2 * (s * s) by move=> s; ring.
+      have h' : forall s : F, s * 1 * (s * 1) + (s * -1 * (s * 1) + 0) = 0 by move=> s; ring.
+      have h'' : forall s : F, s * 1 * (s * 1) + (s * 1 * (s * -1) + 0) = 0 by move=> s; ring.
+      have h3 : forall s : F, s * 1 * (s * 1) + (s * 1 * (s * 1) + 0) = 2 * (s * s) by move=> s; ring.
+      case: i => [[|[|i]] hi] //=; case: j => [[|[|j]] hj] //=;
+        by rewrite ?h ?h' ?h'' ?h3 ?r2i_sq ?mulfV ?two_neq0.
+    - apply/matrixP=> i j; rewrite !(mxE, big_ord_recl, big_ord0) /ex_entry /= /pm1 /=.
+      case: i => [[|[|i]] hi] //=; case: j => [[|[|j]] hj] //=; field; exact: r2_neq0.
+    - move=> i j; rewrite !mxE.
+      by case: i => [[|[|i]] hi] //=; case: j => [[|[|j]] hj] //=; rewrite ?lexx ?ler0n.
+    - by move=> i; rewrite !mxE /ex_entry /= (ord1 i).
+  Qed.
+
+  (* an orthonormal competitor *)
+  Definition ex_Q : 'M[F]_(2, 1) := \matrix_(i, j) (if (i : nat) == 0%N then 1 else 0).
+  Lemma ex_Q_orth : ex_Q^T *m ex_Q = 1%:M.
+  Proof.
+    apply/matrixP=> i j; rewrite !(mxE, big_ord_recl, big_ord0) /= (ord1 i) (ord1 j) eqxx.
+    by rewrite mulr1 mulr0 !addr0.
+  Qed.
+
+  (* exact least squares, and the single retained eigenpair reproduces K~ (C04 limits) *)
+  Lemma ex_ls : (e_X 2 1 ex_env)^T *m (e_Y 2 1 ex_env - e_Yh 2 1 ex_env) = 0.
+  Proof.
+    have -> : e_Y 2 1 ex_env = e_Yh 2 1 ex_env.
+      by apply/matrixP=> i j; rewrite /e_Y /e_Yh !mxE.
+    by rewrite subrr mulmx0.
+  Qed.
+
+  Lemma mk2 : g_mk (0 : F) 2 = 1.
+  Proof. by rewrite /g_mk ltr0n. Qed.
+
+  Lemma ex_capture :
+    eval_mx ex_env (kern_prog 2 1 1)
+    = e_Vs 2 1 ex_env *m dmap (fun x => g_mk (e_tol ex_env) x * x) (e_S 1 ex_env)
+      *m (e_Vs 2 1 ex_env)^T.
+  Proof.
+    rewrite kern_formula /s_Kt /e_Vs /e_S /e_X /e_Yh /e_a /e_tol.
+    apply/matrixP=> i j; rewrite !(mxE, big_ord_recl, big_ord0) /ex_entry /= /pm1 /= mk2.
+    case: i => [[|[|i]] hi] //=; case: j => [[|[|j]] hj] //=;
+      by rewrite mulr1n -[LHS]mulr1 -[X in _ * X = _](mulfV two_neq0) -r2i_sq; ring.
+  Qed.
+
   Lemma ex_nonvacuous :
     [/\ centred 2 1 ex_env, fit_oracle 2 1 1 1 ex_env true, fit_oracle 2 1 1 1 ex_env false
-      & [/\ forall i, e_tol ex_env < e_S 1 ex_env i 0, 0 < e_a ex_env < 1
+      & [/\ forall i, e_tol ex_env < e_S 1 ex_env i 0, e_a ex_env = mix
           & e_X 2 1 ex_env != 0]].
   Proof.
     split; [exact: ex_centred | exact: ex_sample | exact: ex_feature | ].
